@@ -24,6 +24,11 @@ var initAllow = []string{
 	"errors",
 	"io",
 	"github.com/cespare/xxhash",
+	"strings",
+	"bytes",
+	"sort",
+	"slices",
+	"math",
 }
 
 // packages whose explicit init() functions are executed too
